@@ -15,6 +15,8 @@ class Fault(Exception):
 def main():
     req = json.loads(sys.stdin.read())
     import desolver as de
+    from monitor import watchdog
+    watchdog.install(de)
     from desolver import integrators as I
     from desolver import exception_types as E
     failures, cases = {}, 0
